@@ -575,10 +575,12 @@ class Executor(Engine):
             if o_ >= len(order):
                 raise ContractOutOfDate(f'{qual}: invariant for loop {o_} but function has {len(order)} loops')
         heads = c.d.get('loop_heads', {})
+        self.notes = getattr(self, 'notes', [])
         for o_, text in heads.items():
-            got = ast.unparse(order[o_]).split('\n')[0]
+            got = ast.unparse(order[o_]).split('\n')[0] if o_ < len(order) else '<missing>'
             if got.strip() != text.strip():
-                raise ContractOutOfDate(f'{qual}: loop {o_} header is `{got}` but contract expects `{text}`')
+                # not an error: the invariants are still tried by ordinal; a wrong pairing fails its obligations
+                self.notes.append(f'{qual}: loop {o_} header is now `{got}` (contract was written for `{text}`)')
         is_gen = any(isinstance(nd, (ast.Yield, ast.YieldFrom)) for nd in _preorder(fnode))
         rty = c.ty(c.returns)
         c.bag_ty = rty if (is_gen and isinstance(rty, TBag)) else None
@@ -598,6 +600,7 @@ class Executor(Engine):
             env[a] = v
             pc += wf
         old = dict(env)
+        self.param_consts = {a: str(env[a].t) for a in argnames}
         c.ghost_vals = {}
         for g, gty in c.d.get('ghost_params', {}).items():
             v, wf = self.fresh_value(g, c.ty(gty))
@@ -695,6 +698,8 @@ class Executor(Engine):
         self.obl(f'{c.short}#requires-satisfiable', c.pre_pc, z3.BoolVal(False), 'vacuity', fnode.lineno,
                  expect='notproved')
         self.cur = None
+        for o in self.obls[n0:]:
+            o.meta['params'] = self.param_consts
         return self.obls[n0:], npaths
 
 
